@@ -242,6 +242,11 @@ def run_case(ck, root_parent, saver_cfg, loader_cfg, save_rel, load_rel, decoys,
     for drel, dpol in decoys:  # files that exist before, written by the harness under their exact names
         p = Path(root) / drel
         p.parent.mkdir(parents=True, exist_ok=True)
+        if isinstance(dpol, str) and dpol == "DIR":       # a directory carrying the run's name next to the checkpoint
+            p.mkdir(parents=True, exist_ok=True)
+            continue
+        if isinstance(dpol, str) and dpol == "SAME":      # a stale checkpoint of the SAME architecture under the literal name
+            dpol = mk_policy(saver_cfg, jr.key(seed + 77))
         with open(p, "wb") as fh:
             eqx.tree_serialise_leaves(fh, dpol)
         pre.append((drel, leaves_of(dpol)))
@@ -408,6 +413,9 @@ def body(ck):
             add((cls, asp, osp, ARCH[cls][0]), (cls, asp, osp, ARCH[cls][0]), "m", "m", "roundtrip", decoys=[("m.v1.eqx", decoy), ("sub/m.eqx", decoy)])
             add((cls, asp, osp, ARCH[cls][0]), (cls, asp, osp, ARCH[cls][0]), "sub/m.v2", "sub/m.v2", "roundtrip", decoys=[("sub/m.v1.eqx", decoy)])
             add((cls, asp, osp, ARCH[cls][-1]), (cls, asp, osp, ARCH[cls][-1]), "m", "m.eqx", "roundtrip")  # library defaults
+            # something already lives under the literal (suffix-less) name: a stale same-architecture checkpoint, or a directory
+            add((cls, asp, osp, ARCH[cls][0]), (cls, asp, osp, ARCH[cls][0]), "agent.ckpt", "agent.ckpt", "roundtrip", decoys=[("agent.ckpt", "SAME")])
+            add((cls, asp, osp, ARCH[cls][0]), (cls, asp, osp, ARCH[cls][0]), "logs/exp1", "logs/exp1", "roundtrip", decoys=[("logs/exp1", "DIR")])
         # ---- mismatching pairs: deserialize must raise
         box3, box4, box22 = ("box", (3,), -1.0, 1.0), ("box", (4,), -1.0, 1.0), ("box", (2, 2), -1.0, 1.0)
         mism = []
